@@ -16,7 +16,8 @@
    mutation actions; each is built and its outcome must be in the model's Allowed set.
 All building happens in child processes (env.PYTHON, env.child_env()) that report script by script; a script that has
 not answered after LIMIT seconds of wall clock is a `nontermination` divergence (the child is killed and the rest of
-the job goes to a new child); an exception other than ParseError / ValueError escaping Builder.build is an `exception`
+the job goes to a new child); an exception other than ParseError / ValueError escaping Builder.build (ioflo's own ParameterError, RegisterError and
+CloneError included: the property allows parse, resolve and converter value errors only) is an `exception`
 divergence whose `where` is the innermost ioflo function.
 """
 import glob
@@ -165,9 +166,6 @@ def judge(ctx, action, allowed, r, steps, extra=None):
     if r["outcome"] == "timeout":
         ctx.diverge(Divergence("C14", "nontermination", action, "building.py:Builder.build", "building did not return within %.0f s" % LIMIT,
                                steps=steps, expected=sorted(allowed), actual="timeout", extra=extra))
-    elif r["outcome"] == "error" and r["etype"] in B.OTHER_IOFLO_ERRORS and lab not in allowed and "built" in allowed and len(allowed) > 1:
-        ctx._other_ioflo = getattr(ctx, "_other_ioflo", 0) + 1     # ioflo's own error classes: tolerated, counted
-        return True
     elif r["outcome"] in ("error", "crash") and lab not in B.SCRIPT_ERRORS:
         ctx.diverge(Divergence("C14", "exception", action, r["where"], "%s: %s" % (lab, r["msg"][:200]), steps=steps,
                                expected=sorted(allowed), actual=r["etype"], extra=dict(extra or {}, traceback=r.get("traceback", ""))))
@@ -409,7 +407,7 @@ def part_mutate(ctx, work, nproc):
     ctx.add_validated(len(rows), {"base": rows[mid]["base"], "mutations": rows[mid]["log"], "outcome": label_of(results[mid])})
     ctx.sample({"mutations": rows[-1]["log"], "outcome": label_of(results[-1]), "script_tail": scripts[-1][-300:]})
     ctx.extra.update({"outcomes": tally, "command_forms_unmutated": len(forms), "mutated_scripts": sum(1 for r in rows if r["nmut"] > 0),
-                      "other_ioflo_error_classes_tolerated": getattr(ctx, "_other_ioflo", 0)})
+                      })
     return len(rows)
 
 
@@ -426,8 +424,6 @@ def run_c14(ctx):
     n2 = part_mutate(ctx, work, nproc)
     ctx.exhaustive = False
     ctx.extra.update({"evaluations": n1 + n2, "distinct_nontrivial": n1 + n2, "wall_clock_limit_s": LIMIT})
-    ctx.assume("exceptions of ioflo's own classes ParameterError / RegisterError / CloneError escaping a mutated script are counted, "
-               "not reported: the property names neither as allowed nor as internal")
     ctx.assume("a child process that has not answered %.0f s after starting on a script is taken as non-terminating" % LIMIT)
 
 
